@@ -513,6 +513,8 @@ val filter : ('a1 -> bool) -> 'a1 list -> 'a1 list
 
 val find : ('a1 -> bool) -> 'a1 list -> 'a1 option
 
+val combine : 'a1 list -> 'a2 list -> ('a1 * 'a2) list
+
 val firstn : nat -> 'a1 list -> 'a1 list
 
 val skipn : nat -> 'a1 list -> 'a1 list
@@ -1441,3 +1443,82 @@ val step : pstate -> label -> pstate option
 val run : pstate -> label list -> pstate option
 
 val first_rejected : pstate -> label list -> nat -> nat option
+
+type alloc =
+| ALive
+| AFreed
+
+type jphase =
+| JQueued
+| JRunning
+| JDeleted
+| JDropped
+
+type conn = { k_rec : alloc; k_stream : bool; k_registered : bool;
+              k_in_flight : bool; k_closed : bool; k_pending : nat;
+              k_peer_closed : bool; k_jobs : jphase list; k_in_batch : 
+              bool; k_stale : bool; k_answered : nat; k_taken : nat list }
+
+type elstate =
+| EWaiting0
+| EBatch
+
+type estate = { e_conns : conn list; e_loop : elstate }
+
+val ep_init : estate
+
+type outcome0 =
+| OStale
+| ODispatched
+| OBusy
+
+type elabel =
+| LAccept of bool
+| LClientSend of nat
+| LClientClose of nat
+| LWait of nat list
+| LEvent of nat * outcome0
+| LFree of nat
+| LBatchEnd
+| LJobStart0 of nat
+| LRearm of nat
+| LDel of nat
+| LStreamDrop of nat
+| LClosedStore of nat
+
+val ready : conn -> bool
+
+val set_nth0 : 'a1 list -> nat -> 'a1 -> 'a1 list
+
+val with_conn : estate -> nat -> (conn -> conn option) -> estate option
+
+val upd_jobs : conn -> jphase list -> conn
+
+val move_job : jphase list -> jphase -> jphase option -> jphase list option
+
+val new_conn : bool -> conn
+
+val all_distinct : nat list -> bool
+
+val step0 : estate -> elabel -> estate option
+
+val conn_of : estate -> nat -> conn option
+
+val rec_live : estate -> nat -> bool
+
+val stream_open : estate -> nat -> bool
+
+val safe : estate -> elabel -> bool
+
+type verdict =
+| VAccepted of estate
+| VRejected of nat
+| VUnsafe of nat
+
+val replay : estate -> elabel list -> nat -> verdict
+
+val all_ended : estate -> bool
+
+val live_records : estate -> nat
+
+val open_streams : estate -> nat
